@@ -9,7 +9,7 @@
 
 use super::violation;
 use crate::corpus;
-use crate::engine::{Limits, Outcome, Scenario};
+use crate::engine::{HostOp, Limits, Outcome, Scenario};
 use crate::job::{Exec, Executor, Job, JobResult, JobSpec};
 use crate::oracles::crash_signature;
 use crate::prng::Prng;
@@ -51,6 +51,10 @@ pub const FIXED: &[(&str, &str)] = &[
     ("ok-local-to_str-captures-per-call", "struct V_P(v_v: int)\nfn v_mk(v_k: int)->str{ fn to_str(v_x: V_P)->str{ (v_x::v_v + v_k).to_str() } [V_P(1), V_P(2)].to_str() }\nfn main()->bool{ display(v_mk(0)) == \"[1, 2]\" && display(v_mk(10)) == \"[11, 12]\" }"),
     ("ok-fstring-and-join", "fn main()->bool{ let v_x = 5; display(f\"a{v_x}b{v_x}c\") == \"a5b5c\" && display([\"p\", \"q\", \"r\"].join()) == \"pqr\" && display([\"p\", \"q\"].join(\"-\")) == \"p-q\" }"),
     ("ok-string-literals", "fn main()->bool{ display(\"plain\") == \"plain\" && display(\"\") == \"\" && (\"a\" + \"\" + \"b\").len() == 2 && display(\"tab\\tquote\\\"\").len() == 10 }"),
+    ("ok-default-with-effect", "fn v_f(v_x: int ?= display(7))->int{ v_x }\nfn main()->bool{ v_f() == 7 && v_f(3) == 3 }"),
+    ("ok-nested-default-reads-enclosing-argument", "fn v_scaled(v_k: int)->int{ fn v_in(v_x: int ?= v_k * 5)->int{ v_x } v_in() }\nfn main()->bool{ display(v_scaled(1)) == 5 && display(v_scaled(2)) == 10 && display(v_scaled(1)) == 5 }"),
+    ("ok-toplevel-let-with-effect", "let v_t = display(11);\nfn main()->bool{ v_t == 11 }"),
+    ("ok-local-closure-over-argument", "fn v_mk(v_k: int)->int{ let v_g = (v_x: int)->{ v_x + v_k }; v_g(1) }\nfn main()->bool{ display(v_mk(1)) == 2 && display(v_mk(5)) == 6 }"),
     ("display-three-args", "fn main()->bool{ display(1, \"a\", \"b\") == 1 }"),
     ("display-method-three-args", "fn main()->bool{ 1.display(\"a\", 2) == 1 }"),
     ("debug-three-args", "fn main()->bool{ debug(1, \"a\", \"b\") == 1 }"),
@@ -360,6 +364,18 @@ pub fn make(spec: &JobSpec, _ex: &mut Executor, out: &mut JobResult) -> Option<B
                 }
                 // the runtime layout stays fixed: only compile-time variation is under test here
                 sc.env.layout_seed = 1;
+                // the compiled program is instantiated twice (two scopes): nothing may be remembered in the
+                // compiled program between instantiations
+                sc.ops = vec![
+                    HostOp::Instantiate { slot: 0 },
+                    HostOp::Run { slot: 0, func: "main".into() },
+                    HostOp::DropAllResults,
+                    HostOp::Instantiate { slot: 1 },
+                    HostOp::Run { slot: 1, func: "main".into() },
+                    HostOp::DropAllResults,
+                    HostOp::DropScope { slot: 1 },
+                    HostOp::DropScope { slot: 0 },
+                ];
                 scenarios.push(sc);
             }
             if out.samples.len() < 2 {
@@ -374,6 +390,24 @@ pub fn make(spec: &JobSpec, _ex: &mut Executor, out: &mut JobResult) -> Option<B
     }
 }
 
+/// single declarations the compiler rejects on the std scope; fed to the scope under test before the text
+/// under test, they must leave no trace (no half-registered name, type or overload)
+const REJECTED_SINGLE_DECLARATIONS: &[&str] = &[
+    "let len = 5;",
+    "let to_str = 1;",
+    "let v_pre = v_undefined_name;",
+    "fn v_pre(v_x: V_NoSuchType)->int{ 1 }",
+    "fn v_pre(v_x: int)->int{ v_undefined_name }",
+    "let v_pre: int = \"s\";",
+    "struct V_Pre(v_a: V_NoSuchType)",
+    "union V_Pre(v_a: V_NoSuchType, v_b: int)",
+    "let v_pre = 1 +;",
+    "let v_pre = \"abc\\qdef\";",
+    "fn add(v_x: int, v_y: int)->int{ v_undefined_name }",
+    "fn main()->bool{ v_undefined_name }",
+    "let main = 3 + \"s\";",
+];
+
 fn history_pool() -> Vec<String> {
     // a few small texts, some of which fail to compile, to put before the compilation under test
     let mut v: Vec<String> = FIXED.iter().map(|(_, t)| t.to_string()).collect();
@@ -384,6 +418,20 @@ fn history_pool() -> Vec<String> {
     v.push("let v_x = 5;\nlet v_s = f\"<{v_x}tail\\q>\";".to_string());
     v.push("let v_s = \"unterminated".to_string());
     v
+}
+
+fn mask_symbol_numbers(m: &str) -> String {
+    let mut out = String::with_capacity(m.len());
+    let mut rest = m;
+    while let Some(i) = rest.find("SymbolU32 { value: ") {
+        let j = i + "SymbolU32 { value: ".len();
+        out.push_str(&rest[..j]);
+        let digits = rest[j..].chars().take_while(|c| c.is_ascii_digit()).count();
+        out.push('_');
+        rest = &rest[j + digits..];
+    }
+    out.push_str(rest);
+    out
 }
 
 #[derive(Clone, Debug, PartialEq)]
@@ -405,6 +453,15 @@ impl Job for TextJob {
     }
     fn scenario(&mut self, i: usize) -> Scenario {
         let sc = self.scenarios[i].clone();
+        // a third of the environments with a history also feed rejected texts to the SAME scope first
+        let mut prelude = vec![];
+        if sc.seed != 0 && sc.seed % 3 == 0 && !sc.label.starts_with("sandbox:") {
+            let mut rng = Prng::new(sc.seed ^ 0x7072_656c);
+            for _ in 0..(1 + rng.below(3)) {
+                prelude.push(rng.pick(REJECTED_SINGLE_DECLARATIONS).to_string());
+            }
+        }
+        crate::engine::set_scope_prelude(prelude);
         if sc.seed != 0 {
             // earlier compilations on this thread, successful or not, under other hasher keys
             let mut rng = Prng::new(sc.seed);
@@ -441,10 +498,45 @@ impl Job for TextJob {
                 if cc.id_skips > 0 {
                     out.probe("scope_ids_actually_skipped");
                 }
+                // second instantiation: same outcomes, same bytes
+                if r.ops.len() >= 5 {
+                    let seg = |a: usize, b: usize| -> &[u8] {
+                        let s = if a == 0 { 0 } else { r.ops[a - 1].out_len };
+                        &r.out[s.min(r.out.len())..r.ops[b].out_len.min(r.out.len())]
+                    };
+                    let same = r.ops[0].outcome == r.ops[3].outcome && r.ops[1].outcome == r.ops[4].outcome && seg(0, 1) == seg(3, 4);
+                    if !same {
+                        out.violate(violation(
+                            P,
+                            P,
+                            ("behaviour".into(), "a second instantiation of one compiled program behaves differently from the first".into(),
+                             format!("first: {:?} / {:?} wrote {:?}; second: {:?} / {:?} wrote {:?}", r.ops[0].outcome, r.ops[1].outcome, String::from_utf8_lossy(seg(0, 1)), r.ops[3].outcome, r.ops[4].outcome, String::from_utf8_lossy(seg(3, 4)))),
+                            sc,
+                        ));
+                    }
+                    out.probe("instantiated_twice");
+                }
                 Obs::Accepted { ops: r.ops.iter().map(|o| o.outcome.clone()).collect(), out: r.out.clone() }
             }
         };
         out.count("compilations", 1);
+        let with_prelude = crate::engine::scope_prelude_hash() != 0x9e37_79b9_7f4a_7c15;
+        if with_prelude {
+            if crate::engine::prelude_was_accepted() {
+                // the prelude was meant to be rejected; an accepted one legitimately changes the scope
+                out.count("scope_prelude_accepted_scenarios_skipped", 1);
+                crate::engine::set_scope_prelude(vec![]);
+                return;
+            }
+            out.probe("compiled_after_rejected_texts_on_the_same_scope");
+        }
+        // identifiers interned by the rejected texts stay in the scope's interner, and some messages print
+        // raw symbol numbers: with a same-scope prelude those numbers are not part of what must agree
+        let obs = match obs {
+            Obs::Rejected(m) if with_prelude => Obs::Rejected(mask_symbol_numbers(&m)),
+            o => o,
+        };
+        crate::engine::set_scope_prelude(vec![]);
         if let Obs::Panicked(p) = &obs {
             out.violate(violation(P, P, ("crash".into(), crash_signature(p), format!("compiler panicked: {p}")), sc));
         }
@@ -469,6 +561,14 @@ impl Job for TextJob {
         match &self.first {
             None => self.first = Some(obs),
             Some(f) => {
+                let masked_first;
+                let f = match f {
+                    Obs::Rejected(m) if with_prelude => {
+                        masked_first = Obs::Rejected(mask_symbol_numbers(m));
+                        &masked_first
+                    }
+                    f => f,
+                };
                 if *f != obs {
                     let what = match (f, &obs) {
                         (Obs::Rejected(a), Obs::Rejected(b)) => {
